@@ -37,9 +37,9 @@ class Gen:
     def __init__(self, rng, k=0, heavy_special=False):
         self.r = rng
         self.k = k
-        self.pis = [rng.randrange(65536) for _ in range(3)] + [0x0000, 0xF123]
+        self.pis = [rng.randrange(65536) for _ in range(3)] + [0x0000, 0xF123, 0xFFFF]   # 0xFFFF: the 16-bit image of the 'unknown' marker -1
         self.ptys = [rng.randrange(32) for _ in range(3)]
-        self.eccs = [0xE0, 0xE2, 0xA0, 0xD1, 0xF3, rng.randrange(256)]
+        self.eccs = [0xE0, 0xE2, 0xA0, 0xD1, 0xF3, rng.randrange(256), 0xFF, 0x00]   # 0xFF: the 8-bit image of 'unknown'
         self.afs = [1, 204, 205, 0, 250, 224, rng.randrange(256), rng.randrange(1, 205), rng.randrange(1, 205)]
         self.heavy_special = heavy_special
         self.rtflag = rng.randrange(2)
